@@ -469,7 +469,8 @@ impl Script {
 /// number of filler rows of the root-split table (calibrated once per worker: the root leaf is exactly full)
 fn setup_sql(table: Table, start: Start, fillers: usize) -> Vec<String> {
     let mut v = table.ddl();
-    for &k in start.keys() {
+    // descending key order: internal row ids (1, 2, ..) differ from the primary-key values
+    for &k in start.keys().iter().rev() {
         v.push(table.insert_sql(k, 10 * k as i64, 100 * k as i64));
     }
     if table == Table::Split {
@@ -545,7 +546,7 @@ fn queries(sc: &Script) -> Queries {
     Queries { rows, count: "SELECT COUNT(*) FROM t".into(), pk, idx }
 }
 
-#[derive(Clone, PartialEq)]
+#[derive(Clone, PartialEq, Debug)]
 struct Obs {
     rows: Vec<Res>,
     count: Res,
@@ -675,7 +676,9 @@ struct Runner<'a> {
     fillers: usize,
     /// uniqueness probe of the untouched start state (the copy taken at BEGIN): (table, start, moved) -> classes
     base_probe: HashMap<(Table, Start, bool), Vec<(String, &'static str)>>,
-    templates: HashMap<(Table, Start), Template>,
+    /// observation + probe of the start state after a drop + reopen WITHOUT any transaction (reopening has
+    /// defects of its own — C04 — which must not be blamed on the open transaction)
+    reopen_base: HashMap<(Table, Start, bool, String), (Obs, Vec<(String, &'static str)>)>,
     /// (failures as (kind, layer, at), classes) of short scripts
     cache: HashMap<Vec<u8>, (Vec<(&'static str, &'static str, usize)>, Vec<u8>)>,
     cache_max_len: usize,
@@ -686,59 +689,7 @@ fn file_len(dir: &Path) -> u64 {
     std::fs::metadata(dir.join("root").join("t.tbd")).map(|m| m.len()).unwrap_or(0)
 }
 
-/// Image of a database directory (created, set up, cleanly dropped): the start state every script is
-/// materialised from.  Creating a database through DDL costs ~10x more system calls than writing the
-/// image and opening it.
-struct Template {
-    /// relative path, contents (None = directory); parents before children
-    entries: Vec<(std::path::PathBuf, Option<Vec<u8>>)>,
-}
-fn walk_dir(d: &Path, rel: &Path, out: &mut Vec<(std::path::PathBuf, Option<Vec<u8>>)>, with_contents: bool) -> std::io::Result<()> {
-    let mut names: Vec<_> = std::fs::read_dir(d)?.collect::<Result<Vec<_>, _>>()?;
-    names.sort_by_key(|e| e.file_name());
-    for e in names {
-        let r = rel.join(e.file_name());
-        if e.file_type()?.is_dir() {
-            out.push((r.clone(), None));
-            walk_dir(&e.path(), &r, out, with_contents)?;
-        } else {
-            out.push((r, Some(if with_contents { std::fs::read(e.path())? } else { vec![] })));
-        }
-    }
-    Ok(())
-}
-impl Template {
-    fn capture(dir: &Path) -> Result<Template, String> {
-        let mut entries = vec![];
-        walk_dir(dir, Path::new(""), &mut entries, true).map_err(|e| format!("template capture: {e}"))?;
-        Ok(Template { entries })
-    }
-    /// write the image into `dir` (files of an earlier instance are overwritten in place)
-    fn materialise(&self, dir: &Path) -> Result<(), String> {
-        let mut have = vec![];
-        let same = dir.is_dir()
-            && walk_dir(dir, Path::new(""), &mut have, false).is_ok()
-            && have.len() == self.entries.len()
-            && have.iter().zip(self.entries.iter()).all(|(a, b)| a.0 == b.0 && a.1.is_some() == b.1.is_some());
-        if !same {
-            let _ = std::fs::remove_dir_all(dir);
-            std::fs::create_dir_all(dir).map_err(|e| e.to_string())?;
-        }
-        for (p, c) in &self.entries {
-            match c {
-                None => {
-                    if !same {
-                        std::fs::create_dir_all(dir.join(p)).map_err(|e| e.to_string())?;
-                    }
-                }
-                Some(c) => std::fs::write(dir.join(p), c).map_err(|e| format!("write {}: {e}", p.display()))?,
-            }
-        }
-        Ok(())
-    }
-}
-
-/// one opened instance of a template
+/// one fresh database (own directory, created through real DDL/DML)
 struct Inst {
     db: Option<turdb::Database>,
     dir: std::path::PathBuf,
@@ -769,19 +720,20 @@ impl Inst {
 impl Drop for Inst {
     fn drop(&mut self) {
         // harness clean-up after every observation was taken: close() makes the drop skip the final
-        // checkpoint / catalog save (fewer system calls); the directory is reused by the next instance
+        // catalog save / sync (fewer system calls)
         if let Some(db) = self.db.take() {
             let _ = vcore::catch(move || {
                 let _ = db.close();
                 drop(db)
             });
         }
+        let _ = std::fs::remove_dir_all(&self.dir);
     }
 }
 
 impl<'a> Runner<'a> {
     fn new(base: &'a Path, plant: Plant) -> Runner<'a> {
-        Runner { base, plant, fillers: 0, base_probe: HashMap::new(), templates: HashMap::new(), cache: HashMap::new(), cache_max_len: 4, runs: 0 }
+        Runner { base, plant, fillers: 0, base_probe: HashMap::new(), reopen_base: HashMap::new(), cache: HashMap::new(), cache_max_len: 4, runs: 0 }
     }
 
     /// find the number of rows that exactly fills the root leaf of the root-split table
@@ -809,30 +761,26 @@ impl<'a> Runner<'a> {
         Err("calibration: the table file never grew".into())
     }
 
-    /// a database in the start state: the template image (built once per worker through real DDL/DML and a
-    /// clean drop) written to `<base>/<name>` and opened
+    /// a fresh database in the start state.  (Writing a stored image of the start state and opening it
+    /// would be ~5x cheaper, but Database::open restarts the global row-id counter — C04's finding — so
+    /// every INSERT of a script would fail: each script pays for real DDL instead.)
     fn setup(&mut self, name: &str, table: Table, start: Start) -> Result<Inst, String> {
-        if !self.templates.contains_key(&(table, start)) {
-            let fillers = if table == Table::Split { self.calibrate()? } else { 0 };
-            let mut t = TestDb::create(self.base, "template")?;
-            for s in setup_sql(table, start, fillers) {
-                let r = t.exec(&s);
-                if !r.ok() {
-                    return Err(format!("set-up statement failed: {} -> {}", vcore::util::clip(&s, 80), r.show()));
-                }
-            }
-            let db = t.db.take();
-            vcore::catch(move || drop(db)).map_err(|p| format!("PANIC while closing the template: {p}"))?;
-            let tpl = Template::capture(&t.dir)?;
-            self.templates.insert((table, start), tpl);
-        }
+        let fillers = if table == Table::Split { self.calibrate()? } else { 0 };
         let dir = self.base.join(name);
-        self.templates[&(table, start)].materialise(&dir)?;
-        match vcore::catch(|| turdb::Database::open(&dir).map_err(|e| format!("{e:#}"))) {
-            Ok(Ok(db)) => Ok(Inst { db: Some(db), dir }),
-            Ok(Err(e)) => Err(format!("open of the start state failed: {e}")),
-            Err(p) => Err(format!("PANIC in open of the start state: {p}")),
+        let _ = std::fs::remove_dir_all(&dir);
+        let db = match vcore::catch(|| turdb::Database::create(&dir).map_err(|e| format!("{e:#}"))) {
+            Ok(Ok(db)) => db,
+            Ok(Err(e)) => return Err(format!("create failed: {e}")),
+            Err(p) => return Err(format!("PANIC in create: {p}")),
+        };
+        let t = Inst { db: Some(db), dir };
+        for s in setup_sql(table, start, fillers) {
+            let r = t.exec(&s);
+            if !r.ok() {
+                return Err(format!("set-up statement failed: {} -> {}", vcore::util::clip(&s, 80), r.show()));
+            }
         }
+        Ok(t)
     }
 
     fn baseline_probe(&mut self, table: Table, start: Start, moved: bool) -> Result<Vec<(String, &'static str)>, String> {
@@ -843,6 +791,19 @@ impl<'a> Runner<'a> {
         let p = probe(t.db(), table, moved);
         self.base_probe.insert((table, start, moved), p.clone());
         Ok(p)
+    }
+
+    fn reopen_baseline(&mut self, table: Table, start: Start, moved: bool, q: &Queries) -> Result<(Obs, Vec<(String, &'static str)>), String> {
+        let key = (table, start, moved, q.idx.join(";"));
+        if let Some(v) = self.reopen_base.get(&key) {
+            return Ok(v.clone());
+        }
+        let mut t = self.setup("twin", table, start)?;
+        t.reopen().map_err(|e| format!("twin reopen failed: {e}"))?;
+        let obs = observe_all(t.db(), q);
+        let p = probe(t.db(), table, moved);
+        self.reopen_base.insert(key, (obs.clone(), p.clone()));
+        Ok((obs, p))
     }
 
     /// the copy taken at the savepoint: a twin driven by the same statements up to (and including) ops[sp_at],
@@ -980,13 +941,22 @@ impl<'a> Runner<'a> {
                     Term::DropClone => "after dropping the handle that holds the open transaction",
                     _ => "after dropping the only handle with the transaction open and reopening",
                 };
-                let diffs = compare(&q, &obs0, &now, &tainted);
+                let (snap, want_probe, how) = if sc.term == Term::Reopen {
+                    let (o, p) = self.reopen_baseline(table, sc.start, moved, &q)?;
+                    (o, Some(p), "as observed on a twin database reopened without any transaction")
+                } else {
+                    (obs0.clone(), None, "as observed before BEGIN")
+                };
+                let diffs = compare(&q, &snap, &now, &tainted);
                 let rows_ok = !diffs.iter().any(|d| d.0 == "rows");
                 for (layer, e, o) in diffs {
-                    out.failures.push(Failure { kind, layer, at: end, expected: format!("{what}: {e} (as observed before BEGIN)"), observed: o });
+                    out.failures.push(Failure { kind, layer, at: end, expected: format!("{what}: {e} ({how})"), observed: o });
                 }
                 if rows_ok && table.has_pk() && !tainted.contains("uniqueness") {
-                    let want = self.baseline_probe(table, sc.start, moved)?;
+                    let want = match want_probe {
+                        Some(p) => p,
+                        None => self.baseline_probe(table, sc.start, moved)?,
+                    };
                     let got = probe(t.db(), table, moved);
                     out.layer_checks += 1;
                     if want != got {
@@ -1465,124 +1435,6 @@ fn dev(mode: &str) {
                     }
                 }
                 println!("{}: create {:.2} setup {:.2} observe {:.2} txn {:.2} clone+drop {:.2} drop+rm {:.2} ms", table.name(), acc[0], acc[1], acc[2], acc[3], acc[4], acc[5]);
-            }
-            let _ = std::fs::remove_dir_all(&base);
-        }
-        "prof2" => {
-            let base = std::path::PathBuf::from(format!("/dev/shm/turdb_verif/c07dev_{}", std::process::id()));
-            for table in [Table::Plain, Table::IntPk] {
-                // template
-                let mut tpl = TestDb::create(&base, "tpl").unwrap();
-                for s in setup_sql(table, Start::Rows12, 0) {
-                    let _ = tpl.exec(&s);
-                }
-                tpl.db = None;
-                tpl.keep();
-                let mut files = vec![];
-                fn walk(d: &std::path::Path, rel: &std::path::Path, out: &mut Vec<(std::path::PathBuf, Option<Vec<u8>>)>) {
-                    for e in std::fs::read_dir(d).unwrap() {
-                        let e = e.unwrap();
-                        let r = rel.join(e.file_name());
-                        if e.file_type().unwrap().is_dir() {
-                            out.push((r.clone(), None));
-                            walk(&e.path(), &r, out);
-                        } else {
-                            out.push((r, Some(std::fs::read(e.path()).unwrap())));
-                        }
-                    }
-                }
-                walk(&tpl.dir, std::path::Path::new(""), &mut files);
-                println!("template files: {:?}", files.iter().map(|(p, c)| (p.display().to_string(), c.as_ref().map(|c| c.len()))).collect::<Vec<_>>());
-                let n = 200;
-                let mut acc = [0f64; 6];
-                let dir = base.join("copy");
-                for it in 0..n {
-                    let t0 = std::time::Instant::now();
-                    if it == 0 {
-                        std::fs::create_dir_all(&dir).unwrap();
-                    }
-                    for (p, c) in &files {
-                        match c {
-                            None => { let _ = std::fs::create_dir_all(dir.join(p)); }
-                            Some(c) => std::fs::write(dir.join(p), c).unwrap(),
-                        }
-                    }
-                    let t1 = std::time::Instant::now();
-                    let db = turdb::Database::open(&dir).unwrap();
-                    let t2 = std::time::Instant::now();
-                    let r = exec(&db, "SELECT * FROM t");
-                    if it == 0 { println!("{}", r.show()); }
-                    let _ = exec(&db, "BEGIN");
-                    let _ = exec(&db, &Op::UpdA(1).sql(table));
-                    let _ = exec(&db, "ROLLBACK");
-                    let t3 = std::time::Instant::now();
-                    let _ = db.close();
-                    let t4 = std::time::Instant::now();
-                    drop(db);
-                    let t5 = std::time::Instant::now();
-                    for (i, d) in [t1 - t0, t2 - t1, t3 - t2, t4 - t3, t5 - t4].iter().enumerate() {
-                        acc[i] += d.as_secs_f64() * 1000.0 / n as f64;
-                    }
-                }
-                println!("{}: write files {:.2} open {:.2} stmts {:.2} close {:.2} drop {:.2} ms", table.name(), acc[0], acc[1], acc[2], acc[3], acc[4]);
-                let _ = std::fs::remove_dir_all(&base);
-            }
-        }
-        "prof3" => {
-            let base = std::path::PathBuf::from(format!("/dev/shm/turdb_verif/c07dev_{}", std::process::id()));
-            let table = Table::IntPk;
-            let mut tpl = TestDb::create(&base, "tpl").unwrap();
-            for s in setup_sql(table, Start::Rows12, 0) {
-                let _ = tpl.exec(&s);
-            }
-            tpl.db = None;
-            tpl.keep();
-            let mut files = vec![];
-            fn walk(d: &std::path::Path, rel: &std::path::Path, out: &mut Vec<(std::path::PathBuf, Option<Vec<u8>>)>) {
-                for e in std::fs::read_dir(d).unwrap() {
-                    let e = e.unwrap();
-                    let r = rel.join(e.file_name());
-                    if e.file_type().unwrap().is_dir() {
-                        out.push((r.clone(), None));
-                        walk(&e.path(), &r, out);
-                    } else {
-                        out.push((r, Some(std::fs::read(e.path()).unwrap())));
-                    }
-                }
-            }
-            walk(&tpl.dir, std::path::Path::new(""), &mut files);
-            for bg in [false, true] {
-                let (tx, rx) = std::sync::mpsc::channel::<(turdb::Database, std::path::PathBuf)>();
-                let th = std::thread::spawn(move || {
-                    for (db, dir) in rx {
-                        drop(db);
-                        let _ = std::fs::remove_dir_all(dir);
-                    }
-                });
-                let n = 300;
-                let t0 = std::time::Instant::now();
-                let c0 = cpu_ms();
-                for it in 0..n {
-                    let dir = base.join(format!("c{it}"));
-                    std::fs::create_dir_all(&dir).unwrap();
-                    for (p, c) in &files {
-                        match c {
-                            None => { let _ = std::fs::create_dir_all(dir.join(p)); }
-                            Some(c) => std::fs::write(dir.join(p), c).unwrap(),
-                        }
-                    }
-                    let db = turdb::Database::open(&dir).unwrap();
-                    let _ = exec(&db, "SELECT * FROM t");
-                    let _ = exec(&db, "BEGIN");
-                    let _ = exec(&db, &Op::UpdA(1).sql(table));
-                    let _ = exec(&db, "ROLLBACK");
-                    let _ = db.close();
-                    if bg { tx.send((db, dir)).unwrap(); } else { drop(db); let _ = std::fs::remove_dir_all(dir); }
-                }
-                let t1 = std::time::Instant::now();
-                drop(tx);
-                th.join().unwrap();
-                println!("bg={bg}: main loop {:.2} ms/script, incl. join {:.2} ms/script, cpu {:.2} ms/script", (t1 - t0).as_secs_f64() * 1000.0 / n as f64, t0.elapsed().as_secs_f64() * 1000.0 / n as f64, (cpu_ms() - c0) / n as f64);
             }
             let _ = std::fs::remove_dir_all(&base);
         }
